@@ -101,8 +101,31 @@ def check(ctx):
     from .c13 import config_setters_keep_false     # re-configure + re-parse equals a fresh object with the final settings
     ctx.attempt(config_setters_keep_false, rule='COMMIT')
     ctx.attempt(_globals_inventory)
+    ctx.attempt(parse_not_gated)
     ctx.attempt(forward.check_all, module_suffixes=('plssdesc.plssdesc', 'tract.tract', 'tract.tract_parse'))
     ctx.attempt(common.none_vs_false, [f for f in ctx.repo.funcs.values() if f.module.name.endswith('config.config')])
+
+
+def parse_not_gated(ctx, rule='FRESH'):
+    """`parse_complete` records THAT a tract was parsed, not under which
+    settings: a (re-)parse that is skipped because of it keeps results that
+    a fresh object with the current settings would not have."""
+    from ..srcmodel import facts_at
+    n = 0
+    for fi in ctx.repo.funcs.values():
+        if not fi.module.name.endswith(('containers.containers', 'plssdesc.plssdesc', 'tract.tract')):
+            continue
+        for c in walk_local(fi.node):
+            if isinstance(c, ast.Call) and isinstance(c.func, ast.Attribute) and c.func.attr in ('parse', 'parse_tracts') \
+                    and dotted(c.func.value) not in ('self.parser', 'parser'):
+                n += 1
+                gate = [t for _e, t, _pol in facts_at(c) if 'parse_complete' in t]
+                ctx.check(not gate, rule, f"{fi.qualname}: `{norm(c.func)}()` is not skipped for tracts that were parsed before",
+                          detail_bad=f"the call runs only if `{gate[0] if gate else ''}` allows it: after config_tracts() / a new "
+                                     f".config / a changed attribute the old lots and QQs stay, unlike on a fresh object "
+                                     f"with the final settings", key=f"{rule}|{fi.qualname}|parse-gated",
+                          where=common.loc(fi, c))
+    ctx.floor('parse()/parse_tracts() call sites examined for gating', n, 3)
 
 
 def seed_guard(ctx, seeded=None):
